@@ -135,6 +135,8 @@ pub struct GenCfg {
     pub sync_only: bool,
     /// adjacent variants may share a canonical name (only without a parser)
     pub dup_names: bool,
+    /// C12: a case-sensitive / case-insensitive pair of spellings that differ only in case
+    pub mixed_case_overlap: bool,
 }
 
 pub const DEFAULTABLE: &[FieldTy] = &[
@@ -364,9 +366,13 @@ fn use_generics(e: &mut EnumSpec) {
 
 pub fn spellings_overlap(e: &EnumSpec, a: &VariantSpec, b: &VariantSpec) -> bool {
     let (ca, cb) = (model::is_ci(e, a), model::is_ci(e, b));
+    // C12 programs may pair a case-sensitive spelling with a case-insensitive one that differs from it only in
+    // case (`"m"` exact / `"M"` folded): only the case-sensitive spelling itself is then ambiguous as an input
+    // (the checker skips inputs that match two variants), every other case-flip has exactly one owner
+    let mixed_ok = e.mixed_case_overlap && ca != cb;
     for p in model::spellings(e, a) {
         for q in model::spellings(e, b) {
-            if p == q || ((ca || cb) && model::ascii_fold_eq(&p, &q)) {
+            if p == q || ((ca || cb) && !mixed_ok && model::ascii_fold_eq(&p, &q)) {
                 return true;
             }
         }
@@ -732,6 +738,30 @@ pub fn gen_string(rg: &mut Rg, cfg: &GenCfg) -> EnumSpec {
         v.groups = vec![vec![VAttr::ToString(lit.join(*rg.pick(&[" ", ",", "-", ""])))]];
         let at = rg.range(0, e.variants.len());
         e.variants.insert(at, v);
+    }
+    // a case-sensitive and a case-insensitive variant whose spellings differ only in case, in either order
+    if cfg.mixed_case_overlap && rg.chance(1, 3) {
+        let cand: Vec<usize> = (0..e.variants.len()).filter(|&i| !e.variants[i].is_default() && !e.variants[i].transparent()).collect();
+        if cand.len() >= 2 {
+            e.mixed_case_overlap = true;
+            let i = cand[rg.below(cand.len() - 1)];
+            let j = *cand.iter().find(|&&x| x > i).unwrap();
+            let base = format!("{}{}", rg.pick(&["kb", "m", "ok", "sha", "io"]), i);
+            let up: String = {
+                let mut c = base.chars();
+                let f = c.next().unwrap().to_ascii_uppercase();
+                std::iter::once(f).chain(c).collect()
+            };
+            let (cs_at, ci_at) = if rg.chance(1, 2) { (i, j) } else { (j, i) };
+            for (at, name, flag) in [(cs_at, base, false), (ci_at, up, true)] {
+                let v = &mut e.variants[at];
+                for g in v.groups.iter_mut() {
+                    g.retain(|a| !matches!(a, VAttr::Serialize(_) | VAttr::ToString(_) | VAttr::Ci(_)));
+                }
+                v.groups.retain(|g| !g.is_empty());
+                v.groups.push(vec![VAttr::Serialize(name), VAttr::Ci(Some(flag))]);
+            }
+        }
     }
     // braces in non-placeholder literals confuse Display's placeholder scanner: only C17 plays with them
     use_generics(&mut e);
